@@ -123,6 +123,8 @@ def main(path):
             parts.append(bytes(buf))
         data = b''.join(parts)
         log({'intent': 'stream', 'temp': os.path.basename(getattr(dst, 'name', '?')), 'data': data.hex()})
+        import time as _time
+        _time.sleep(0.002)      # widen the window between opening the destination and writing it (timing only)
         plan['n'] += 1
         if plan['n'] == plan['at']:
             cut = plan['partial'] % (len(data) + 1)
